@@ -88,7 +88,7 @@ def fnv(b):
     return h
 
 
-def big_stream(rng, target):
+def big_stream(rng, target, huge=0):
     """A large well-formed stream (several responses, long values, binary payloads with protocol look-alikes).
     Returns (bytes, number of responses, canonical digest of the expected outcomes)."""
     out = bytearray()
@@ -107,8 +107,10 @@ def big_stream(rng, target):
                 v = v.replace(b"\xc3", b"c")  # keep valid UTF-8 (no stray lead bytes)
                 out += k + b": " + v + b"\n"
                 canon += k + b":" + v + b"\n"
-            if rng.random() < 0.5:
+            if rng.random() < 0.5 or (huge and nresp == 0):
                 ln = rng.choice([0, 1, 100, 4090, 4096, 5000, 8192, 20000])
+                if huge and nresp == 0:
+                    ln = huge  # a binary chunk far beyond every buffer doubling, followed by further responses
                 p = bytes(rng.choice([10, 79, 75, 0, 255, 98, 58, 32]) for _ in range(ln))
                 out += b"binary: %d\n" % ln + p + b"\n"
                 canon += b"B%d:" % ln + p
